@@ -68,6 +68,10 @@ type Spec struct {
 	// sequences (seq.go): Timer.Stop comes too late for this request's timers - the runtime has already started the timer functions -
 	// so they run at their time although the request is over by then (emulated by making Stop a no-op on the armed timers)
 	KeepTimers bool            `json:"keep_timers,omitempty"`
+	// the upstream stream layer resets the current attempt's stream (reason ResetUpReason) right after the proxy has written the
+	// response headers ("hdr") / the response data ("data") downstream: a reset after the response to the client has started
+	ResetUpOn     string `json:"reset_up_on,omitempty"`
+	ResetUpReason string `json:"reset_up_reason,omitempty"`
 	Flavour  string            `json:"flavour,omitempty"` // "" = xprotocol-like (status read from the response headers); "http" = status read from the context variable
 	Service  string            `json:"service,omitempty"`
 	BodyLen  int               `json:"body_len,omitempty"`
